@@ -17,7 +17,9 @@ def showState (s : State Tbl) : String :=
   let files := (List.range nFiles).map fun p =>
     if s.created p then "new" else match s.disk p with | some c => showTbl c | none => "-"
   let temps := (List.range nTemps).map fun t => match s.temps t with | some x => showTbl x.cur | none => "-"
-  "disk:" ++ String.intercalate ";" files ++ "|temps:" ++ String.intercalate ";" temps
+  let held := (List.range nFiles).filter (fun p => locked s p && (s.disk p).isSome)
+  let locks := if held.isEmpty then "-" else String.intercalate "," (held.map toString)
+  "disk:" ++ String.intercalate ";" files ++ "#L:" ++ locks ++ "|temps:" ++ String.intercalate ";" temps
 
 def showOut : Out Tbl → String
   | .rows c => "rows:" ++ showTbl c
@@ -44,6 +46,19 @@ def c01stepCore (s : State Tbl) (cmd : String) (args : List String) : State Tbl 
   | "select", [p] => match p.toNat? with | some p => run (.select p) | none => bad
   | "selectfu", [p] => match p.toNat? with | some p => run (.selectForUpdate p) | none => bad
   | "dml", [p, k, a] => match p.toNat?, a.toInt? with | some p, some a => run (.dml p (dmlFn k a)) | _, _ => bad
+  | "selectfu2", [p, q] =>
+    -- SELECT a.v FROM p a JOIN q b ON a.v = b.v FOR UPDATE: both tables are loaded for update, p first
+    match p.toNat?, q.toNat? with
+    | some p, some q =>
+      match load s p true with
+      | none => (s, showOut (Out.failed : Out Tbl) ++ "|" ++ showState s)
+      | some (s1, cp) =>
+        match load s1 q true with
+        | none => (s1, showOut (Out.failed : Out Tbl) ++ "|" ++ showState s1)
+        | some (s2, cq) =>
+          let rows := cp.flatMap (fun x => (cq.filter (· = x)).map (fun _ => x))
+          (s2, showOut (Out.rows rows) ++ "|" ++ showState s2)
+    | _, _ => bad
   | "deljoin", [p, q, a] =>
     -- DELETE a, b FROM p a LEFT JOIN q b ON a.v = b.v WHERE a.v = k: both files are taken for update (p first);
     -- rows k leave p, and — when p had such a row — the rows k of q.  Composed from the model's own `dml` steps.
